@@ -149,3 +149,56 @@ func verifHarness_C14_read_failure(busy int) {
 	verifAssert(len(n.chCloseChannel) == 1, "C14/L2/node-told-to-forget-the-channel")
 	verifReach("C14/L2")
 }
+
+// C12 (one schedule per scenario): a node over a custom transport is closed at a scripted point; when Close returns
+// every goroutine the node started has ended, the transport has been closed exactly once, the event channel is
+// closed, and a write issued afterwards returns.
+// scenario 0: application consuming events, channel idle; 1: consumer stopped, the reader is stuck on the undelivered
+// open event; 2: the writer is stuck inside a transport Write; 3: Close right after Initialize, nothing consumed,
+// plus a write racing with it.
+func verifHarness_C12_close(scenario int) {
+	t := &verifBlockRWC{writeBlocks: scenario == 2}
+	n := &Node{Dialect: verifHarnessDialect, OutVersion: V2, OutSystemID: 1, HeartbeatDisable: true,
+		Endpoints: []EndpointConf{EndpointCustom{t}}}
+	var ierr error
+	verifRunGoroutines(func() { ierr = n.Initialize() })
+	verifAssert(ierr == nil, "C12/initialize-ok")
+	msg := &message.MessageRaw{ID: 202, Payload: []byte{1, 2, 3, 4, 5}}
+	if scenario == 0 || scenario == 2 {
+		evt := <-n.chEvent
+		_, isOpen := evt.(*EventChannelOpen)
+		verifAssert(isOpen, "C12/open-event-first")
+		verifRunGoroutines(nil)
+	}
+	if scenario == 2 {
+		verifRunGoroutines(func() { n.WriteMessageAll(msg) }) //nolint:errcheck
+		verifAssert(t.inWrite == 1, "C12/writer-is-inside-the-transport")
+	}
+	var werr error
+	if scenario == 3 {
+		// a write racing with the close: started first, parked on the hand-over or served, then Close
+		verifRunGoroutines(func() { werr = n.WriteMessageAll(msg) })
+	}
+	stillBlocked := verifRunGoroutines(func() { n.Close() })
+	verifAssert(!stillBlocked, "C12/close-returns-and-every-goroutine-has-ended")
+	verifAssert(verifBlockedGoroutines() == 0, "C12/no-goroutine-left-behind")
+	verifAssert(t.closed == 1, "C12/custom-transport-closed-exactly-once")
+	// the event channel is closed: ranging over it ends (pending events, if any, first)
+	ended := false
+	for i := 0; i < 8 && !ended; i++ {
+		select {
+		case _, ok := <-n.chEvent:
+			if !ok {
+				ended = true
+			}
+		default:
+			i = 8
+		}
+	}
+	verifAssert(ended, "C12/event-channel-closed")
+	blocked := verifRunGoroutines(func() { werr = n.WriteMessageAll(msg) })
+	verifAssert(!blocked && werr == nil, "C12/write-after-close-returns")
+	blocked = verifRunGoroutines(func() { werr = n.WriteFrameTo(nil, &frame.V2Frame{Message: msg}) })
+	verifAssert(!blocked, "C12/write-frame-after-close-returns")
+	verifReach("C12/close")
+}
